@@ -3,6 +3,7 @@ package props
 import (
 	"bufio"
 	"encoding/binary"
+	"encoding/json"
 	"fmt"
 	"io"
 	"runtime"
@@ -10,6 +11,7 @@ import (
 	"time"
 
 	"github.com/influxdata/kapacitor"
+	"github.com/influxdata/kapacitor/pipeline"
 	"github.com/influxdata/kapacitor/tick"
 	"github.com/influxdata/kapacitor/tick/ast"
 	"github.com/influxdata/kapacitor/udf"
@@ -23,7 +25,8 @@ import (
 // Claimed for the facets that involve goroutines, peers and running tasks (DESIGN.md 7 C05).
 
 type c05Scenario struct {
-	Mode   string   `json:"mode"` // define | runtime | peer
+	Mode   string   `json:"mode"` // define | json | vars | runtime | peer
+	Doc    string   `json:"document,omitempty"` // vars mode: the request body; json mode: the mutation applied to the pipeline JSON
 	Script string   `json:"script"`
 	Lambda string   `json:"lambda,omitempty"`
 	Mut    string   `json:"mutation,omitempty"`
@@ -46,13 +49,31 @@ var c05Corpus = []string{
 var c05Lambdas = []string{
 	"\"a\" / \"b\" > 0", "\"a\" % \"b\" == 0", "strSubstring(\"s\", 2, 1) == 'x'", "strSubstring(\"s\", 0, 100) == 'x'", "\"v\" > 5",
 	"int(\"f\") / \"b\" > 1", "strLength(\"s\") / \"b\" > 1", "duration(\"a\", 1s) / \"b\" > 1s", "abs(\"a\") % \"b\" == 1", "strIndex(\"s\", 'z') % \"b\" == 0",
+	"strSubstring(\"s\", 0, 1, 2, 3) == 'x'", "abs(\"a\", 1, 2, 3, 4, 5) > 0", "if(\"a\" > 1, 1, 2, 3, 4, 5, 6) > 0",
 	"\"missing\" > 1", "regexReplace(/a/, \"s\", 'b') == 'x'", "\"a\" * 9223372036854775807 > 0", "float(\"s\") > 1.0", "sigma(\"f\") > 1.0 OR \"a\" / \"b\" == 1",
 }
 
 func c05Gen(c *Ctx) *c05Scenario {
 	g := c.G
-	sc := &c05Scenario{Mode: []string{"define", "define", "runtime", "runtime", "peer"}[g.Intn(5)]}
+	sc := &c05Scenario{Mode: []string{"define", "define", "runtime", "runtime", "peer", "json", "vars"}[g.Intn(7)]}
 	switch sc.Mode {
+	case "json":
+		// a valid script; its pipeline is serialised to JSON, the JSON is mutated (runC05) and offered to Pipeline.Unmarshal
+		sc.Script = c05Corpus[g.Intn(len(c05Corpus))]
+		sc.Doc = fmt.Sprintf("%d:%d:%d", g.Intn(8), g.Intn(1000), g.Intn(12))
+	case "vars":
+		sc.Script = "var x = 1\nvar l = [1, 2]\nvar d = 1s\nvar f = lambda: \"v\" > 1\nstream\n    |from()\n        .measurement('m')\n    |where(f)\n    |log()\n"
+		docs := []string{
+			`{"x":{"type":"int","value":2}}`, `{"x":{"type":"int","value":"2"}}`, `{"x":{"type":5,"value":2}}`, `{"x":{"value":2}}`, `{"x":5}`, `{"x":null}`,
+			`{"l":{"type":"list","value":[{"type":"int","value":1}]}}`, `{"l":{"type":"list","value":[{"type":5,"value":1}]}}`, `{"l":{"type":"list","value":[{"value":1}]}}`,
+			`{"l":{"type":"list","value":[{"type":"int"}]}}`, `{"l":{"type":"list","value":[1,2]}}`, `{"l":{"type":"list","value":{"type":"int","value":1}}}`,
+			`{"l":{"type":"list","value":[{"type":null,"value":1}]}}`, `{"l":{"type":"list","value":[{"type":"list","value":[{"type":"star","value":""}]}]}}`,
+			`{"d":{"type":"duration","value":true}}`, `{"d":{"type":"duration","value":"1x"}}`, `{"d":{"type":"duration","value":9223372036854775808}}`, `{"d":{"type":"duration","value":1.5}}`,
+			`{"f":{"type":"lambda","value":"\"v\" >"}}`, `{"f":{"type":"lambda","value":5}}`, `{"f":{"type":"lambda","value":"abs(1,2,3,4,5,6) > 0"}}`, `{"f":{"type":"regex","value":"("}}`,
+			`{"x":{"type":"float","value":"NaN"}}`, `{"x":{"type":"bool","value":"yes"}}`, `{"x":{"type":"star","value":5}}`, `{"x":{"type":"string","value":5}}`, `{"":{"type":"int","value":1}}`,
+			`[]`, `"vars"`, `{"x":{"type":"int","value":1e999}}`,
+		}
+		sc.Doc = docs[g.Intn(len(docs))]
 	case "define":
 		src := c05Corpus[g.Intn(len(c05Corpus))]
 		b := []byte(src)
@@ -60,7 +81,14 @@ func c05Gen(c *Ctx) *c05Scenario {
 		var muts []string
 		for i := 0; i < nm && len(b) > 0; i++ {
 			pos := g.Intn(len(b))
-			switch g.Intn(8) {
+			switch g.Intn(9) {
+			case 8: // more arguments than any function or method takes
+				if i := strings.IndexByte(string(b[pos:]), '('); i >= 0 {
+					at := pos + i + 1
+					ins := strings.Repeat([]string{"1, ", "\"v\", ", "1s, ", "'s', "}[g.Intn(4)], g.Range(4, 7))
+					b = append(append(append([]byte(nil), b[:at]...), ins...), b[at:]...)
+					muts = append(muts, fmt.Sprintf("manyargs@%d", at))
+				}
 			case 0: // truncate
 				b = b[:pos]
 				muts = append(muts, fmt.Sprintf("truncate@%d", pos))
@@ -124,7 +152,7 @@ func c05Gen(c *Ctx) *c05Scenario {
 		good := "m a=6i,b=3i,f=2.5,s=\"abcdef\",v=7.0"
 		sc.Lines = []string{good + " 1000000000", "m " + c05Bad(sc.Bad) + " 2000000000", good + " 3000000000", "m " + c05Bad(sc.Bad) + " 3000000000", good + " 4000000000"}
 	default:
-		sc.Peer = []string{"echo", "garbage", "wrongtype", "oversize", "halfframe", "empty", "end-without-begin", "close-after-init", "close-after-info", "silent", "duration-field"}[g.Intn(11)]
+		sc.Peer = []string{"echo", "garbage", "wrongtype", "oversize", "halfframe", "empty", "end-without-begin", "close-after-init", "close-after-info", "silent", "duration-field", "begin-huge"}[g.Intn(12)]
 		sc.Script = "stream\n    |from().measurement('m')\n    @echo()\n    |log().prefix('A')\n"
 		if sc.Peer == "duration-field" {
 			sc.Script = "stream\n    |from().measurement('m')\n    |eval(lambda: 1s).as('d').keep()\n    @echo()\n    |log().prefix('A')\n"
@@ -267,6 +295,9 @@ func (s *c05Socket) hostile() {
 			s.toServer.Write([]byte("0123456789"))
 			s.toServer.Close()
 			return
+		case "begin-huge":
+			write(&agent.Response{Message: &agent.Response_Begin{Begin: &agent.BeginBatch{Name: "m", Size: int64(1) << []uint{33, 40, 62}[simrt.Choose(3)]}}})
+			write(&agent.Response{Message: &agent.Response_End{End: &agent.EndBatch{Name: "m"}}})
 		case "empty":
 			write(&agent.Response{})
 		case "end-without-begin":
@@ -274,6 +305,87 @@ func (s *c05Socket) hostile() {
 			write(&agent.Response{Message: &agent.Response_Point{}})
 			write(&agent.Response{Message: &agent.Response_Begin{}})
 		}
+	}
+}
+
+// c05MutateJSON applies one textual mutation to a serialised pipeline.
+func c05MutateJSON(doc string, op, where, what int) string {
+	types := []string{"nope", "", "lambda", "binary", "func", "reference", "stream", "where", "number", "list", "program", "comment"}
+	occ := func(needle string) []int {
+		var at []int
+		for i := 0; ; {
+			j := strings.Index(doc[i:], needle)
+			if j < 0 {
+				return at
+			}
+			at = append(at, i+j)
+			i += j + len(needle)
+		}
+	}
+	switch op {
+	case 0, 1, 2: // give a node another (or an unknown) type
+		at := occ(`"typeOf":"`)
+		if len(at) == 0 {
+			return doc
+		}
+		i := at[where%len(at)] + len(`"typeOf":"`)
+		j := i + strings.IndexByte(doc[i:], '"')
+		return doc[:i] + types[what%len(types)] + doc[j:]
+	case 3: // a value of another JSON kind
+		at := occ(`":`)
+		if len(at) == 0 {
+			return doc
+		}
+		i := at[where%len(at)] + 2
+		j := i
+		depth := 0
+		inStr := false
+		for ; j < len(doc); j++ {
+			ch := doc[j]
+			if inStr {
+				if ch == '\\' {
+					j++
+				} else if ch == '"' {
+					inStr = false
+				}
+				continue
+			}
+			if ch == '"' {
+				inStr = true
+			} else if ch == '{' || ch == '[' {
+				depth++
+			} else if (ch == '}' || ch == ']') && depth > 0 {
+				depth--
+			} else if (ch == ',' || ch == '}' || ch == ']') && depth == 0 {
+				break
+			}
+		}
+		return doc[:i] + []string{"null", "5", `"x"`, "[]", "{}", "true", `[{"typeOf":"nope"}]`, "-1", "1e99", `{"typeOf":"lambda"}`, `{"typeOf":"binary","operator":"+"}`, `""`}[what%12] + doc[j:]
+	case 4: // truncate
+		return doc[:where%(len(doc)+1)]
+	case 5: // drop a key
+		at := occ(`,"`)
+		if len(at) == 0 {
+			return doc
+		}
+		i := at[where%len(at)]
+		j := i + 1 + strings.Index(doc[i+1:], `":`)
+		return doc[:i+2] + "zz" + doc[j:]
+	case 6: // node ids
+		at := occ(`"id":"`)
+		if len(at) == 0 {
+			return doc
+		}
+		i := at[where%len(at)] + len(`"id":"`)
+		j := i + strings.IndexByte(doc[i:], '"')
+		return doc[:i] + []string{"0", "-1", "999", "x", ""}[what%5] + doc[j:]
+	default: // edges
+		at := occ(`"edges":[`)
+		if len(at) == 0 {
+			return doc
+		}
+		i := at[0] + len(`"edges":[`)
+		return doc[:i] + []string{`{"parent":"0","child":"0"},`, `{"parent":"1","child":"0"},`, `{"parent":"77","child":"78"},`, `{},`, `5,`}[what%5] + doc[i:]
 	}
 }
 
@@ -290,18 +402,55 @@ func runC05(c *Ctx) Verdict {
 	var leaked []simrt.ParkedInfo
 	var d *harness.Daemon
 	var defineErr, defineErr2 error
+	trivialJSON := false
 	stopped := false
 	var ms0, ms1 runtime.MemStats
 	runtime.ReadMemStats(&ms0)
 	res := c.World(cfg, func() {
 		var err error
 		us := &c05UDF{peer: sc.Peer, timeout: 10 * time.Second}
-		d, err = harness.NewDaemon(harness.DaemonOpts{UDF: us, Influx: &harness.FakeInflux{}})
+		d, err = harness.NewDaemon(harness.DaemonOpts{UDF: us, Influx: &harness.FakeInflux{}, WithTaskStore: sc.Mode == "vars"})
 		if err != nil {
 			verdict = Fail("harness/setup", "daemon: %v", err)
 			return
 		}
 		dbrps := []kapacitor.DBRP{{Database: "db", RetentionPolicy: "rp"}}
+		if sc.Mode == "json" {
+			tt := kapacitor.StreamTask
+			if strings.HasPrefix(strings.TrimSpace(sc.Script), "batch") {
+				tt = kapacitor.BatchTask
+			}
+			task, err := d.TM.NewTask("J", sc.Script, tt, dbrps, 0, nil)
+			if err != nil {
+				defineErr = err // one corpus script is itself rejected (a regex where a string is expected): nothing to serialise
+				trivialJSON = true
+				return
+			}
+			data, err := json.Marshal(task.Pipeline)
+			if err != nil {
+				verdict = Fail("harness/setup", "pipeline cannot be serialised: %v", err)
+				return
+			}
+			var op, where, what int
+			fmt.Sscanf(sc.Doc, "%d:%d:%d", &op, &where, &what)
+			mutated := c05MutateJSON(string(data), op, where, what)
+			sc.Doc += " => " + truncateStr(mutated, 300)
+			done := simrt.Expect("Pipeline.Unmarshal returns", 2_000_000, time.Hour)
+			p := &pipeline.Pipeline{}
+			defineErr = p.Unmarshal([]byte(mutated))
+			done()
+			return
+		}
+		if sc.Mode == "vars" {
+			body := fmt.Sprintf(`{"id":"V","type":"stream","dbrps":[{"db":"db","rp":"rp"}],"script":%q,"vars":%s}`, sc.Script, sc.Doc)
+			done := simrt.Expect("task definition with vars returns", 2_000_000, time.Hour)
+			code, _ := d.Do("POST", "/kapacitor/v1/tasks", body)
+			done()
+			if code >= 300 {
+				defineErr = fmt.Errorf("HTTP %d", code)
+			}
+			return
+		}
 		if sc.Mode == "define" {
 			g0 := simrt.GoroutineCount()
 			done := simrt.Expect("defining the task returns", 2_000_000, time.Hour)
@@ -379,6 +528,10 @@ func runC05(c *Ctx) Verdict {
 		v.Shape = shape
 		return v
 	}
+	if sc.Mode == "json" || sc.Mode == "vars" {
+		c.Trivial = trivialJSON
+		return Pass() // the call returned a value or an error and no goroutine panicked
+	}
 	if sc.Mode == "define" {
 		if len(leaked) > 0 {
 			v := Fail("goroutine-leak", "defining the script returned (NewTask err=%v, NewTemplate err=%v) but %d goroutine(s) started by it never finish: %v\nmutation: %s", defineErr, defineErr2, len(leaked), leaked, sc.Mut)
@@ -432,7 +585,7 @@ func init() {
 	Register(&Prop{
 		ID:  "C05",
 		Run: runC05,
-		Rule: "case = one of three modes. define: a corpus script (6 scripts covering most node kinds) with 1-3 seeded byte-level mutations (truncate, delete, duplicate, rotate, multi-byte rune or comment after '/', stray tokens, property without parentheses, random byte, dropped parentheses) offered to ast.Parse, tick.Format, TaskMaster.NewTask and NewTemplate inside a world; runtime: a running task with one of 15 lambdas in where/alert/stateCount/stateDuration/from/eval/derivative fed good, bad (zero/overflowing divisors, wrong types, empty strings, missing fields), good points next to a bystander task; peer: a task with a UDF node on the real UDFSocket/udf.Server over simulated pipes against an echo agent or one of 9 misbehaving peers (garbage, wrong response types, oversized length prefix, half a frame then close, empty message, end without begin, close after info/init, silence, a duration field reaching the UDF); " +
+		Rule: "case = one of five modes. json: the pipeline of a corpus script serialised to JSON, one seeded textual mutation (node type changed or unknown, value of another JSON kind, truncation, dropped key, node ids, edges), offered to Pipeline.Unmarshal; vars: a task definition with one of 30 well- and ill-formed vars documents POSTed to the real task_store handler; define: a corpus script (6 scripts covering most node kinds) with 1-3 seeded byte-level mutations (truncate, delete, duplicate, rotate, multi-byte rune or comment after '/', stray tokens, property without parentheses, random byte, dropped parentheses, 4-7 extra arguments) offered to ast.Parse, tick.Format, TaskMaster.NewTask and NewTemplate inside a world; runtime: a running task with one of 18 lambdas in where/alert/stateCount/stateDuration/from/eval/derivative fed good, bad (zero/overflowing divisors, wrong types, empty strings, missing fields), good points next to a bystander task; peer: a task with a UDF node on the real UDFSocket/udf.Server over simulated pipes against an echo agent or one of 10 misbehaving peers (a batch announcing 2^33..2^62 points, garbage, wrong response types, oversized length prefix, half a frame then close, empty message, end without begin, close after info/init, silence, a duration field reaching the UDF); " +
 			"non-trivial = the task was defined (runtime/peer) or any define case; distinct = distinct (scenario, interleaving signature) pairs",
 		Real:        []string{"tick/ast lexer goroutine + parser, tick.Format, tick evaluator, pipeline.CreatePipeline/CreateTemplatePipeline, TaskMaster.NewTask/NewTemplate", "node.start recover path, WhereNode, AlertNode, StateTracking nodes, FromNode, EvalNode, DerivativeNode, tick/stateful evaluator and functions", "UDFNode, UDFSocket, udf.Server, udf/agent framing", "TaskMaster ingest/fork, httpd write endpoint"},
 		Stub:        []string{"UDFService on the existing seam: real UDFSocket over SimPipes, in-process echo agent or scripted hostile peer", "recording sinks"},
